@@ -85,6 +85,14 @@ CHECKS = {
         "outside": "contract transactions (gas used by the EVM: C17); a governance price change between blocks (C15/G6 shows parameters switch only at Commit)",
         "assumptions": A_COMMON + A_STORE + ["A-SIG", "A-HASH", "A-GOV"],
     },
+    "C06": {
+        "quick": [
+            {"name": NODE + "ZZ_C06_M1", "reach": ["M1 end"], "bound": "twin replicas; genesis with 4 validators (powers symbolic inside disjoint bands, so the stake limiter is active and the ranking fixed), 5 funded accounts, concrete Test1 governance parameters; blocks 1-2 empty; block 3 and block 4 each with one transaction from {delegation A3->A0/A1 of power 1 or 2^41, unstaking of a genesis stake, transfer A3->A4 of symbolic amount}; replica B additionally serves ONE request at one of 5 positions around block 3 (before BeginBlock, before DeliverTx, before EndBlock, before Commit, after Commit): CheckTx of a transaction of the same menu (or of block 3's own transaction) or a Query (account / delegatee / total power / gov params)", "validate": 8},
+        ],
+        "bounds": "one injected CheckTx/Query in 5 slots, 2 blocks observed (result codes, gas used, validator updates, application hash)",
+        "outside": "more than one injected request (one suffices for a first divergence by the unwinding argument of DESIGN section 4/C06); interleavings finer than one ABCI call (the application mutex serialises them); symbolic governance parameters",
+        "assumptions": A_COMMON + A_STORE + ["A-SIG", "A-HASH", "A-EVM (BeginBlock/Commit of the EVM controller only)"],
+    },
     "C09": {
         "quick": [
             {"name": NODE + "ZZ_C09_P1small", "reach": ["P1 end"], "bound": "one hostile transaction (garbage bytes | empty | TrxProto with type 0..9, sender in {known, unknown, 19 bytes}, receiver in {known, 21 bytes, zero}, payload in {absent, garbage, boundary-valued message}, symbolic amount/gas/nonce/time/price, signature in {garbage, genuine}) to DeliverTx or CheckTx; then a well-formed transfer, EndBlock, Commit", "validate": 6},
